@@ -124,7 +124,7 @@ def case_strategy(draw, allow_rle=False, allow_relabel=True):
         case["relabelled"] = True
     # dimensions that must not matter for the quantities compared here: memory layout, logging/timing flags,
     # the edge-case handler (tp>0) and the selection of global metrics
-    case["layout"] = draw(st.sampled_from(["C", "C", "C", "F", "neg", "T"]))
+    case["layout"] = draw(st.sampled_from(["C", "C", "C", "F", "neg", "T", "shared"]))
     if draw(st.integers(0, 3)) == 0:
         case["flags"] = {f: True for f in ("save_group_times", "log_times", "verbose") if draw(st.booleans())}
     if draw(st.integers(0, 3)) == 0:
@@ -190,7 +190,11 @@ def resolve(case):
     candidate scores."""
     pred, ref = case_arrays(case)
     lay = case.get("layout", "C")
-    pred, ref = gen.with_layout(pred.astype(case["dtype"]), lay), gen.with_layout(ref.astype(case["dtype"]), lay)
+    if lay == "shared":  # both maps are channels of one parent array
+        parent = np.stack([ref, pred], axis=-1).astype(case["dtype"])
+        ref, pred = parent[..., 0], parent[..., 1]
+    else:
+        pred, ref = gen.with_layout(pred.astype(case["dtype"]), lay), gen.with_layout(ref.astype(case["dtype"]), lay)
     cfg = {"input": case["input"], "backend": case.get("backend"), "imetrics": case.get("imetrics", PM.METRICS), "gmetrics": case.get("gmetrics", []),
            "flags": case.get("flags"), "handler": case.get("handler"), "force_matcher": case.get("force_matcher")}
     pin = PM.model_instances(pred, case["input"], case.get("backend"))
